@@ -358,7 +358,15 @@ class Flow:
         if not self.track_guards:
             return st
         add = []
-        for atom, p in decompose(test, pol):
+        atoms = decompose(test, pol)
+        inner, ipol = test, pol
+        while isinstance(inner, ast.UnaryOp) and isinstance(inner.op, ast.Not):
+            inner, ipol = inner.operand, not ipol
+        if isinstance(inner, ast.BoolOp) and not atoms:
+            # `a and b` is false / `a or b` is true: no atom follows, keep the compound test itself as a fact
+            ckey, cpol = canon_atom(self.resolver, inner, ipol)
+            add.append(self._guard_fact(ckey, cpol, self.resolver.resolve(inner)))
+        for atom, p in atoms:
             key, p2 = canon_atom(self.resolver, atom, p)
             # contradiction with a known fact -> infeasible
             for f in st:
